@@ -246,8 +246,8 @@ def nextFrame (g : Cfg) (s : S) : NF :=
 
 inductive RA
   | ok (b : Bytes)
-  | tooLarge
-  | failed          -- the decompressor reported an error
+  | tooLarge (held : Nat)   -- refused; `held` = bytes in the buffer at that moment
+  | failed (held : Nat)     -- the decompressor reported an error
   | stuck           -- the observed script does not fit the loop (allocator/reader contract broken), or it ran out
   deriving Repr, DecidableEq
 
@@ -258,9 +258,9 @@ def clampEnd (L cap : Nat) : Nat := if L > 0 ∧ cap > L then L else cap
 def probe (buf : Bytes) : List RdStep → RA
   | [] => .stuck
   | st :: rest =>
-    if st.n > 0 then .tooLarge
+    if st.n > 0 then .tooLarge buf.length
     else if st.st == 1 then .ok buf
-    else if st.st != 0 then .failed
+    else if st.st != 0 then .failed buf.length
     else probe buf rest
 
 /-- growth step: `al` more bytes, at most up to the limit, at most 4 MiB at a time -/
@@ -287,7 +287,7 @@ def readLoop (L : Nat) : List RdStep → Bytes → Bytes → Nat → Option Nat 
     if (capOk st need same && readOk st (e - buf.length) rest.length) = false then .stuck else
     let buf' := buf ++ rest.take st.n
     if st.st == 1 then .ok buf'
-    else if st.st != 0 then .failed
+    else if st.st != 0 then .failed buf'.length
     else if buf'.length == e then
       if L > 0 ∧ buf'.length + 1 > L then probe buf' steps
       else readLoop L steps buf' (rest.drop st.n) (buf'.length + growBy L buf'.length) none
@@ -335,8 +335,8 @@ def finishMsg (g : Cfg) (e : Env) (k : K) : FR :=
   let k0 : K := { k with message := none }
   let r : RA := if k.compress then readAll g.msgLimit (m.length * 2) (e.inflate m) else .ok m
   match r with
-  | .tooLarge => .fail k0 .tooLarge
-  | .failed => .fail k0 .inflate
+  | .tooLarge _ => .fail k0 .tooLarge
+  | .failed _ => .fail k0 .inflate
   | .stuck => .fail k0 .stuck
   | .ok out =>
     let d := dispatch g e { k0 with msgType := 0, compress := false, expecting := false } k.msgType out
